@@ -17,25 +17,33 @@ META = {
     "id": "C32", "category": "proof", "design_ref": "task brief of agent-c32 (DESIGN.md lists C32 as not applicable; src/xml builds since the tinyxml2 shim)",
     "technique": "Coq proof of a hand-written model of the writer/reader default-class elision and number-format decision + "
                  "correspondence of the model with the real writer/reader on generated class trees + end-to-end round-trip oracle on the real code",
-    "text": "Strength: partial. PROVED (Coq, all class trees, all attribute policy lists, any number type): reading the written default-class tree "
-            "gives the tree back, and every element is reconstructed from what is written against its class, PROVIDED the writer's comparison is exact "
-            "and the side conditions of the two special policies hold (C32_defaults_roundtrip, C32_element_roundtrip); with the comparison the code has "
-            "(SameVector, absolute tolerance 2.2e-16) only the one-attribute statement 'equal or within the tolerance' holds (…_tolerance_partial) and the "
-            "exact statement is REFUTED of the faithful model by witnesses (tolerance, drift with class depth, userdata of a default class compared with zero, "
-            "actdim compared with a constant instead of the class); integers of the int range are printed exactly at every precision, numbers within 1e-12 of an "
-            "integer are printed as that integer (refuted exactness). TIED: the model's write/read decisions are compared with the real writer (saved XML) and "
-            "reader (recompiled arrays) on generated joint default-class trees; the number-format decision with the text the real writer prints for sampled doubles "
-            "(subnormals, huge, -0, near-integers, > 2^53); a fail-closed scan compares the writer's attribute calls, the generated attribute table and the text of "
-            "WriteAttr/SameVector/isint/Round/WriteVector with the reference the model was written against. OBSERVED (validation, not proof): end-to-end identity of every "
-            "MJMODEL_POINTERS array, size, option, visual, statistic field between model -> save -> parse -> compile (bit-exact numbers under FullFloatPrecision, +0 = -0; "
-            "directly written arrays to 2e-5 at the default 6 digits) and between the 2nd and 3rd generation, on schema-driven random MJCF (default trees, childclass, frames, "
-            "all actuator shortcuts, sensors, tendons, equalities, pairs, custom, keyframes, builtin textures, materials, inline meshes, hfields, compiler/option/visual/size settings) "
-            "and on mjSpec models of mjgen.h. NOT COVERED: tinyxml2 itself (the shim of harness/stubs is linked), assets on disk, includes, URDF, plugins, mjz, flex/skin/composite, "
-            "'%.17g round-trips every double' (libc), size components and eq_objtype that have no meaning for the element (normalised, counted as don't-care).",
-    "note": "Trusted: Coq kernel; hand-written models Model/XmlDefaults.v, Model/XmlNumFormat.v; harness (g++, driver c32_roundtrip.cc, generator c32_genxml.py, python xml.etree); "
-            "tinyxml2 shim (harness/stubs/tinyxml2_shim.cc) instead of tinyxml2; libc printf/strtod. Theorems are closed under the global context.",
+    "text": "Strength: partial. PROVED (Coq, every class tree, every attribute policy list, any number type): reading the written default-class tree gives the tree "
+            "back and every element is reconstructed from what is written against its class, PROVIDED the writer's comparison is exact and the side conditions of the "
+            "special policies hold (C32_defaults_roundtrip, C32_element_roundtrip; policies: compared with class/parent with or without trailing trim, userdata compared with "
+            "zero in defaults [the code before repo fix 546b7fc8e], compared with a constant in elements [actdim before 8cd3a2adb], compared exactly with class/parent [userdata now]). "
+            "With the comparison the code has (SameVector: absolute tolerance 2.2e-16) only the one-attribute statement 'equal or within the tolerance' holds "
+            "(C32_attr_roundtrip_tolerance_partial); the exact statement is REFUTED of the faithful model by witnesses: tolerance, drift growing with the class depth, "
+            "userdata of a default class compared with zero, actdim compared with a constant (the last two were genuine defects, repaired in /repo). Number formatting: "
+            "integers of the int range are printed exactly at every precision (C32_integers_printed_exactly); a number within 1e-12 of an integer is printed as that integer "
+            "(C32_near_integer_refuted, recorded finding). TIED on every run: the model's write/read decisions against the real writer (saved XML) and reader (recompiled joint arrays) "
+            "on generated joint default-class trees with values at/near the parent's (the policy of `user` is read from OneJoint's text); the format decision against the text the real "
+            "writer prints for sampled doubles (subnormals, huge, -0, near-integers, > 2^53) at precision 17 and 6, also evaluated in Coq; a fail-closed scan of the writer's "
+            "attribute calls per function, of the generated attribute table and of the text of WriteAttr/SameVector/isint/Round/WriteVector/WriteAttrTable against the accepted variants. "
+            "OBSERVED (validation, not proof): identity of every MJMODEL_POINTERS array, every size, option, visual and statistic field between model -> mj_saveXMLString -> "
+            "mj_parseXMLString -> mj_compile (numerically exact under FullFloatPrecision, +0 = -0; directly written arrays to 2e-5 at the default 6 digits) and between the 2nd and 3rd "
+            "generation, on schema-driven random MJCF (attributes drawn from the tree's own mjcf.schema: default trees, childclass, nested frames, every actuator shortcut, sensors, "
+            "tendons, equalities, pairs/excludes, custom, keyframes, builtin textures, materials, inline meshes, hfields, compiler/option/flag/visual/size/statistic settings), on mjSpec "
+            "models of mjgen.h extended through the mjSpec API (default classes re-assigned with mjs_setDefault, frames with mjs_setFrame, full keyframe vectors), one stratum per recorded "
+            "lossy mechanism and fixed minimal documents of every repaired defect. Differences are reported under a recorded finding class only when positively attributed to it. "
+            "NOT COVERED: frame/childclass pose composition is observed, not modelled; tinyxml2 itself (the shim of harness/stubs is linked), assets on disk, includes, URDF, plugins, "
+            "mjz, flex/skin/composite/replicate/attach, mj_saveLastXML's copy-back path, '%.17g round-trips every double' (libc), size components and eq_objtype without meaning for "
+            "the element (normalised, counted as don't-care).",
+    "note": "Trusted: Coq kernel; hand-written models Model/XmlDefaults.v, Model/XmlNumFormat.v; harness (g++, driver c32_roundtrip.cc, comparison c32_cmp.h, generators c32_genxml.py/c32_gen.h/mjgen.h, "
+            "python xml.etree); tinyxml2 shim (harness/stubs/tinyxml2_shim.cc) instead of tinyxml2; libc printf/strtod; the tree's doc/generate/mjcf_schema.py as schema parser of the generator. "
+            "Theorems are closed under the global context.",
     "assumptions": ["the model abstracts attribute records into lists of number vectors with one policy per attribute; the tie is differential on the cases of this run",
-                    "number formatting/parsing of libc is trusted (text compared exactly with Python's repr/format on sampled doubles)"],
+                    "number formatting/parsing of libc is trusted (text compared exactly with Python's repr/format on sampled doubles)",
+                    "recorded findings (KNOWN_FINDINGS.json C32-F*): compiler settings that are not saved, body order with unnamed frames, freejoint align, 1e-12 tolerances"],
 }
 
 REF = os.path.join(F.VERIF, "harness", "drivers", "c32_writer_ref.json")
@@ -476,10 +484,10 @@ def run(ctx):
 
     # ---------------- corpus
     jobs = []      # (id, kind, prec, feature, text of the driver command, replay info)
-    n_core = 90 if quick else 700
-    n_p6 = 25 if quick else 150
-    n_gen = 20 if quick else 120
-    n_probe = 6 if quick else 30
+    n_core = 250 if quick else 2600
+    n_p6 = 60 if quick else 450
+    n_gen = 60 if quick else 450
+    n_probe = 12 if quick else 80
     seed0 = rng.randrange(1 << 30)
 
     def xjob(cid, seed, level, prec, feature, dump=0):
@@ -580,7 +588,7 @@ def run(ctx):
                       theorem="property statement (oracle on implementation output)", signature=sig)
 
     # ---------------- tie (a)
-    n_tie = 40 if quick else 300
+    n_tie = 100 if quick else 700
     tcases = [tie_case(rng) for _ in range(n_tie)]
     tin = ""
     for i, (t, joints) in enumerate(tcases):
